@@ -133,7 +133,8 @@ def pVer : P Ver := do
 /-! Input features behind the repaired findings (no longer exclusion classes — every well-formed
 case is compared with the specification); they only label the case so that coverage of these
 inputs stays a gate: g = method outside the old gate list, c = listed header name in another letter
-case, w = weight with OWS / "Q=", t = upper-case primary tag, u = value edged by Unicode white space. -/
+case, w = weight with OWS / "Q=", t = upper-case primary tag, u = value edged by Unicode white space, k = several Cookie lines,
+r = several Referer lines. -/
 
 def exactIn (l : List String) (n : Bytes) : Bool := l.any (fun s => ascii s == n)
 
@@ -158,7 +159,9 @@ def featReq (h : ReqHead) : String :=
   (if h.method == ascii "REPORT" || h.method == ascii "MKCALENDAR" then "g" else "") ++
   featFields true h.fields ++
   (if (firstField h.fields "accept-language").isSome && h.langs.any weightFeat then "w" else "") ++
-  (if (firstField h.fields "accept-language").isSome && h.langs.any tagFeat then "t" else "")
+  (if (firstField h.fields "accept-language").isSome && h.langs.any tagFeat then "t" else "") ++
+  (if (fieldsNamed h.fields "cookie").length ≥ 2 then "k" else "") ++
+  (if (fieldsNamed h.fields "referer").length ≥ 2 then "r" else "")
 
 def bodyTag (body : Bytes) : String :=
   if body.isEmpty then "b0" else if utf8Valid body then "btxt" else "bbin"
